@@ -134,3 +134,74 @@ Proof.
 Qed.
 
 End Handover.
+
+(* ------------------------------------------------------------------------------------------ *)
+(* non-vacuity: the two-station example run of Model/Multi.v reaches, after 163 polls, a state that
+   satisfies every hypothesis of handover_step_partial - station 1 (index 0) passed the token to station
+   2 (index 1) at t0 = 6440; index 1 polled at tp = 6480 and found the first byte; index 0 polled at 6520;
+   the poll of index 1 at t1 = 6560 finds the telegram complete.                                   *)
+
+Definition delivered_b (rate : Z) (ib : nat) (tp : Z) (h0 : history) : bool :=
+  forallb (fun x => match h_tx x with
+                    | Some w' => Nat.eqb (h_who x) ib || Nat.eqb (bytes_by rate (h_now x) (length w') tp) (length w')
+                    | None => true
+                    end) h0.
+Definition idle_b (rate : Z) (ib : nat) (t1 : Z) (h0 : history) : bool :=
+  forallb (fun x => match h_tx x with
+                    | Some w' => negb (Nat.eqb (h_who x) ib) || (tx_end rate (h_now x) (length w') <=? t1)
+                    | None => true
+                    end) h0.
+
+Lemma delivered_b_sound rate ib tp h0 : delivered_b rate ib tp h0 = true ->
+  forall x w', In x h0 -> h_who x <> ib -> h_tx x = Some w' -> bytes_by rate (h_now x) (length w') tp = length w'.
+Proof.
+  unfold delivered_b. rewrite forallb_forall. intros H x w' Hin Hne Ex. specialize (H x Hin). rewrite Ex in H.
+  destruct (Nat.eqb_spec (h_who x) ib) as [C|_]; [contradiction|]. cbn [orb] in H. apply Nat.eqb_eq. exact H.
+Qed.
+
+Lemma idle_b_sound rate ib t1 h0 : idle_b rate ib t1 h0 = true ->
+  forall x w', In x h0 -> h_who x = ib -> h_tx x = Some w' -> tx_end rate (h_now x) (length w') <= t1.
+Proof.
+  unfold idle_b. rewrite forallb_forall. intros H x w' Hin He Ex. specialize (H x Hin). rewrite Ex in H.
+  destruct (Nat.eqb_spec (h_who x) ib) as [_|C]; [|contradiction]. cbn [negb orb] in H. apply Z.leb_le. exact H.
+Qed.
+
+Definition ex2_s163 : sys unit := fst (ex2_run 163).
+
+Lemma ex2_handover_hypotheses :
+  exists sta stb h0 h1,
+    let fa := st_f sta in let fb := st_f stb in
+    nth_error (sys_st ex2_s163) 0 = Some sta /\ nth_error (sys_st ex2_s163) 1 = Some stb /\
+    sys_hist ex2_s163 = h0 ++ mkH 0 6440 (Some (encode_token (ts fb) (ts fa))) :: h1 /\
+    Forall (fun x => h_tx x = None) h1 /\
+    kind_of (f_state fa) = KCheckTokenPass /\ Rep (length (st_apps sta)) fa /\
+    Rep (length (st_apps stb)) fb /\ f_conn fb = ConnOnline /\ f_state fb = ActiveIdle None None 0 /\
+    r_ps (f_ring fb) = ts fa /\ ts fa <> ts fb /\
+    st_buf stb = firstn (bytes_by 500000 6440 3 6480) (encode_token (ts fb) (ts fa)) /\ st_buf stb = [220] /\
+    (f_pending fb < 3)%nat /\ (forall l, f_lba fb = Some l -> l < 6560) /\ time_ok 6560 /\
+    last_poll (sys_hist ex2_s163) 1 = Some 6480 /\ bytes_by 500000 6440 3 6560 = 3%nat /\
+    (forall x w', In x h0 -> h_who x <> 1%nat -> h_tx x = Some w' -> bytes_by 500000 (h_now x) (length w') 6480 = length w') /\
+    (forall x w', In x h0 -> h_who x = 1%nat -> h_tx x = Some w' -> tx_end 500000 (h_now x) (length w') <= 6560).
+Proof.
+  destruct ex2_hypotheses as (Hv & _ & Ha & HM).
+  assert (Hs : sched_time_ok (ex2_schedule 163)) by (apply (sched_ok_time_ok _ (fun _ => 0)), sched_okb_sound; vm_compute; reflexivity).
+  destruct (multi_run_never_panics unit unit_app_ops (ideal_medium 500000) HM Ha ex2_cfg (ex2_schedule 163) Hv Hs)
+    as (s0 & s' & E0 & E & HR).
+  assert (Hs' : s' = ex2_s163) by (unfold ex2_s163, ex2_run; rewrite E0, E; reflexivity). subst s'.
+  destruct (nth_error (sys_st ex2_s163) 0) as [sta|] eqn:Ea; [|vm_compute in Ea; discriminate Ea].
+  destruct (nth_error (sys_st ex2_s163) 1) as [stb|] eqn:Eb; [|vm_compute in Eb; discriminate Eb].
+  pose proof (HR _ _ Ea) as Ra. pose proof (HR _ _ Eb) as Rb.
+  exists sta, stb, (firstn 160 (sys_hist ex2_s163)), (skipn 161 (sys_hist ex2_s163)). cbv zeta.
+  split; [reflexivity|]. split; [reflexivity|].
+  split; [|split; [|split; [|split; [exact Ra|split; [exact Rb|]]]]].
+  - vm_compute in Ea, Eb. injection Ea as <-. injection Eb as <-. vm_compute. reflexivity.
+  - vm_compute. repeat constructor.
+  - vm_compute in Ea. injection Ea as <-. reflexivity.
+  - clear Ra Rb HR. vm_compute in Ea, Eb. injection Ea as <-. injection Eb as <-.
+    split; [reflexivity|]. split; [reflexivity|]. split; [reflexivity|]. split; [vm_compute; discriminate|].
+    split; [reflexivity|]. split; [reflexivity|]. split; [vm_compute; lia|].
+    split; [intros l Hl; vm_compute in Hl; injection Hl as <-; lia|]. split; [unfold time_ok; lia|].
+    split; [vm_compute; reflexivity|]. split; [vm_compute; reflexivity|]. split.
+    + apply delivered_b_sound. vm_compute. reflexivity.
+    + apply idle_b_sound. vm_compute. reflexivity.
+Qed.
